@@ -47,6 +47,7 @@ static Env make_env(const std::string &name, double reslen)
     if (name == "thin") { e.boxes.push_back({0.5, 0.25, 0.5 + 1.3 * reslen, 1.0}); return e; }       // thin wall, open below
     if (name == "thin2") { e.boxes.push_back({0.5, 0.0, 0.5 + 1.3 * reslen, 0.75}); e.boxes.push_back({0.3, 0.3, 0.3 + 1.1 * reslen, 1.0}); return e; }
     if (name == "blocked") { e.boxes.push_back({0.5, 0.0, 0.5 + 2.6 * reslen, 1.0}); return e; }    // no solution exists
+    if (name.rfind("blockedw", 0) == 0) { double k = std::atoi(name.c_str() + 8) / 10.0; e.boxes.push_back({0.5, 0.0, 0.5 + k * reslen, 1.0}); return e; }   // full-height wall, k/10 resolution lengths wide
     if (name.rfind("boxes", 0) == 0 || name.rfind("circles", 0) == 0)
     {
         bool bx = name[0] == 'b'; unsigned seed = std::atoi(name.c_str() + (bx ? 5 : 7));
